@@ -63,8 +63,35 @@ char *strcat(char *d, const char *s)
     }
     return d;
 }
-/* byte-loop memcpy/memmove/memset: cbmc's array models are exact as well, but with the tiny constant
- * sizes of the B units plain loops keep everything in one propositional encoding */
+/* malloc/realloc for the bounded units.  cbmc's own malloc gives a block whose size is a symbolic
+ * expression whenever the requested size depends on the input (strlen(pstr)+1 ...); such blocks are
+ * encoded with the array theory and the B units then need > 36 GB.  This model is the same allocator
+ * (fresh dynamic object of EXACTLY n bytes, uninitialised, freed by cbmc's own free) but it branches on
+ * the requested size so that every block has a constant size: exact bounds checks, no array theory.
+ * Sizes above VS_MALLOC_MAX fall through to the symbolic-size allocation. */
+#define VS_M(k) case k: return __CPROVER_allocate(k, 0);
+void *malloc(size_t n)
+{
+    switch (n) {
+      VS_M(1) VS_M(2) VS_M(3) VS_M(4) VS_M(5) VS_M(6) VS_M(7) VS_M(8) VS_M(9) VS_M(10) VS_M(11) VS_M(12)
+      VS_M(13) VS_M(14) VS_M(15) VS_M(16) VS_M(17) VS_M(18) VS_M(19) VS_M(20) VS_M(24) VS_M(32) VS_M(40)
+      VS_M(48) VS_M(56) VS_M(64)
+      default: return __CPROVER_allocate(n, 0);
+    }
+}
+void *realloc(void *p, size_t n)
+{
+    char *r;
+    size_t m;
+    if (p == NULL) return malloc(n);
+    __CPROVER_assert(__CPROVER_POINTER_OFFSET(p) == 0, "realloc: pointer is the start of a block");
+    r = malloc(n);
+    m = __CPROVER_OBJECT_SIZE(p);
+    if (n < m) m = n;
+    memcpy(r, p, m);
+    free(p);
+    return r;
+}
 #endif /* VERIF_SPLIT_PRECISE */
 
 /* Deterministic loop-free strchr (tier P units that need IS_DELIM(c) to give the same answer when it is
@@ -83,7 +110,7 @@ char *strchr(const char *s, int c)
     __CPROVER_assert(s != NULL, "strchr: argument not NULL");
     __CPROVER_assert(__CPROVER_r_ok(s, 1), "strchr: argument readable");
     size_t r = __CPROVER_uninterpreted_strchr_pos(s, (char) c);
-    if (r == (size_t) -1) {
+    if (r == ~(size_t) 0) {
         __CPROVER_assume((char) c != 0);
         return (char *) 0;
     }
